@@ -1,6 +1,35 @@
 //! `tokio` as seen by svgbob_server in the simulation build.
 pub use real_tokio::*;
 
+pub mod task {
+    //! `tokio::task` with the two entry points that would leave the simulator's
+    //! control replaced: work handed to the blocking pool runs as an ordinary
+    //! task of the current-thread runtime instead of on a pool thread, so which
+    //! request's conversion runs when is still decided by the (deterministic)
+    //! scheduler and overlaps between requests remain reproducible.
+    pub use real_tokio::task::*;
+
+    pub fn spawn_blocking<F, R>(f: F) -> JoinHandle<R>
+    where
+        F: FnOnce() -> R + Send + 'static,
+        R: Send + 'static,
+    {
+        real_tokio::task::spawn(async move {
+            for _ in 0..svgbob_verif_srvsim::blocking_delay() {
+                real_tokio::task::yield_now().await;
+            }
+            f()
+        })
+    }
+
+    pub fn block_in_place<F, R>(f: F) -> R
+    where
+        F: FnOnce() -> R,
+    {
+        f()
+    }
+}
+
 pub mod runtime {
     pub use real_tokio::runtime::*;
     use std::future::Future;
